@@ -652,6 +652,55 @@ def ref_program(rng, pid, horizon):
     return P.program(pid, nodes, start=rng.choice([1, 1, 2]), end=horizon + 1)
 
 
+def check_keyed_references(chk, rng):
+    """references to dictionaries: retarget deltas are the difference between what the consumer had seen and the new
+    contents - validated by spec/RefDictTrace.tla"""
+    import check_ops
+    scns = []
+    for k in range(120 if chk.tier == "quick" else 2000):
+        horizon = rng.choice([6, 8])
+        h1 = check_ops.dict_history(rng, [1, 2, 3, 4], horizon, maxops=3)
+        h2 = check_ops.dict_history(rng, [2, 3, 4, 5], horizon, maxops=3)
+        if not h1 or not h2:
+            continue
+        # both dictionaries hold a value from the first cycle on: the property speaks of retargeting to a VALID target
+        # (a selection of a dictionary that has never ticked, followed by a selection back, re-adds keys the consumer
+        # had never been told were removed - observation recorded in DESIGN.md, not asserted)
+        for h, k0 in ((h1, 1), (h2, 5)):
+            if 1 not in h or not any(op == "set" for op, _, _ in h[1]):
+                h[1] = [("set", k0, 9)] + [o for o in h.get(1, []) if o[1] != k0]
+        times = sorted(rng.sample(range(1, horizon + 1), rng.randint(2, 5)))
+        sel = []
+        for t in times:
+            sel.append((t, rng.choice([0, 1]) if not sel or rng.random() < 0.75 else sel[-1][1]))
+        lines = ["scn dref%d" % k, "opt start=1 end=%d" % (horizon + 1), "graph root",
+                 "n 1 src script=" + ";".join("%d:%d" % x for x in sel),
+                 "n 2 dsrc script=" + check_ops.dscript(h1), "n 3 dsrc script=" + check_ops.dscript(h2),
+                 "n 6 drec in=2", "n 7 drec in=3", "n 4 dite in=1,2,3", "n 5 drec in=4", "endgraph", "run"]
+        scns.append("\n".join(lines))
+    traces = hg.run_driver("engine", scns)
+    items = []
+    for k, (scn, tr) in enumerate(zip(scns, traces)):
+        chk.count({"scn": scn})
+        if isinstance(tr, dict) or any(e["e"] in ("wirefail", "harnessfail") for e in tr):
+            chk.violation("dref:run", "keyed reference scenario crashed or could not be wired", scn)
+            continue
+        # within one engine cycle the recorders are independent observers: present the producers (selector, targets)
+        # before the consumer so the specification knows the targets' contents when the consumer's record arrives
+        ev = [e for e in tr if (e["e"] == "fn" and e["id"] == 1) or e["e"] in ("drec", "ret")]
+        ev.sort(key=lambda e: (e.get("t", 10 ** 6), 1 if (e["e"] == "drec" and e["id"] == 5) else 0))
+        items.append({"id": k, "prog": {"sel": 1, "tgt1": 6, "tgt2": 7, "cons": 5}, "ev": ev})
+    verdicts, st, trn = tracecheck.validate("RefDictTrace", "RefDictTrace.cfg", items, "c13dict", keep={"fn", "drec", "ret"})
+    chk.coverage["states"] += st
+    chk.coverage["transitions"] += trn
+    chk.coverage["traces_validated_against_impl"] += len(items)
+    for it in items:
+        acc, why = verdicts[it["id"]]
+        if why:
+            chk.violation("dref:%s" % why, "RefDictTrace.tla rejects the trace at event %d: %s" % (acc + 1, why), "# %s\n%s\n" % (why, scns[it["id"]]))
+    chk.notes["keyed_reference_scenarios"] = len(scns)
+
+
 def check_c13(chk, rng):
     n = 300 if chk.tier == "quick" else 4000
     progs = [ref_program(rng, i + 1, rng.choice([6, 7, 9])) for i in range(n)]
@@ -684,6 +733,7 @@ def check_c13(chk, rng):
             chk.violation("ref-stream:" + c.what, "reading through the reference differs from reading its current target (Dataflow.tla): " + diff,
                           replay_text(c, diff))
     chk.coverage["traces_validated_against_impl"] += len(cases)
+    check_keyed_references(chk, rng)
     for c in cases[:2]:
         chk.sample({"scenario": c.scn.splitlines(), "specified": c.pred["writes"][:16]})
     chk.coverage["rule"] = ("2-4 targets (scripted or computed, incl. self-scheduling), one or two chained if_then_else selectors whose condition "
